@@ -450,6 +450,18 @@ Fixpoint bo_batch (size : option nat) (n : nat) (e : excl) (oracles : list (list
   | _, _ => []
   end.
 
+(* DEHB._suggest, retry loop for a NEW trial (MAX_RETRIES rounds of mutation / cross-over or
+   draws in encoded space): a candidate is either a promotion (a configuration suggested before,
+   accepted as is) or a freshly decoded configuration, which is accepted only if it is not in the
+   exclusion list; when the rounds are used up nothing is suggested *)
+Inductive dehb_cand := DPromotion (t : Z) | DNew (c : C).
+Fixpoint dehb_retry (n : nat) (e : excl) (cands : list dehb_cand) : option dehb_cand :=
+  match n, cands with
+  | S n', DPromotion t :: _ => Some (DPromotion t)
+  | S n', DNew c :: r => if excl_contains e c then dehb_retry n' e r else Some (DNew c)
+  | _, _ => None
+  end.
+
 (* ---------------------------------------------------------------------- *)
 (* ModelBasedSearcher (GPFIFOSearcher): TuningJobState bookkeeping + get_config *)
 Record tj_state := {
@@ -590,6 +602,7 @@ Definition mb_clone (self : mb_state) (st : mb_snapshot) : mb_state :=
 Inductive mb_event :=
 | MSuggest (t : Z) (ds : list draw) (cands : list C) (opt : C -> C)
 | MUpdate (t : Z) (c : C)
+| MNonFinite (t : Z)          (* result with NaN / infinite metric value *)
 | MFailed (t : Z).
 
 Definition mb_step (s : mb_state) (e : mb_event) : mb_state * list (res (option C)) :=
@@ -605,6 +618,7 @@ Definition mb_step (s : mb_state) (e : mb_event) : mb_state * list (res (option 
           end
       end
   | MUpdate t c => (mb_update s t c, [])
+  | MNonFinite t => (mb_update_nonfinite s t, [])
   | MFailed t => (mb_evaluation_failed s t, [])
   end.
 
@@ -657,6 +671,25 @@ Definition postprocess_config (cfg : list (K * V)) (space : list (K * entry)) : 
                           | Some v => OVal v
                           | None => match snd ke with EDom d => ODomObj d | EConst v => OVal v end
                           end)) space.
+
+(* TrialScheduler.suggest: the suggestion of _suggest is post-processed whenever it carries a
+   configuration — for a NEW trial and for a RESUMED one (promotion-type schedulers return the
+   stored searcher configuration of the paused trial plus the new milestone under
+   max_resource_attr, and the backend overwrites the trial's configuration with it) *)
+Record suggestion := { sg_spawn_new : bool; sg_checkpoint : option Z; sg_config : option (list (K * V)) }.
+Record suggestion_out := { so_spawn_new : bool; so_checkpoint : option Z; so_config : option (list (K * oval)) }.
+Definition ts_suggest (space : list (K * entry)) (r : option suggestion) : option suggestion_out :=
+  match r with
+  | None => None
+  | Some g => Some {| so_spawn_new := sg_spawn_new g; so_checkpoint := sg_checkpoint g;
+                      so_config := match sg_config g with
+                                   | Some cfg => Some (postprocess_config cfg space)
+                                   | None => None
+                                   end |}
+  end.
+(* config of a resume suggestion with max_resource_attr: dict(stored_config, **{max_resource_attr: milestone}) *)
+Definition with_milestone (cfg : list (K * V)) (mra : K) (milestone : V) : list (K * V) :=
+  (mra, milestone) :: filter (fun kv => negb (keqb (fst kv) mra)) cfg.
 
 (* PBT._explore: per hyperparameter either resample (a draw) or
    cast(clip(value * multiplier, lower, upper)) *)
